@@ -463,6 +463,20 @@ pub fn boundary_keysets(rng: &mut Rng, tier: Tier) -> Vec<(String, Vec<Vec<u8>>)
             out.push((format!("fanout{}_tails_v{}", f, variant), sort_dedup(d2)));
         }
     }
+    // twins: two (three) prefixes with IDENTICAL wide sub-automata, so that sharing of wide nodes is observable
+    for &f in &[2usize, 32, 33, 40, 64, 200, 256] {
+        let bytes: Vec<u8> = (0..f).map(|i| (i as u8).wrapping_mul(5).wrapping_add(3)).collect::<std::collections::BTreeSet<u8>>().into_iter().collect();
+        let mut ks = vec![];
+        for p in [b'a', b'b', 0xEE] {
+            for &c in &bytes {
+                ks.push(vec![p, c]);
+                if c % 7 == 0 {
+                    ks.push(vec![p, c, b'!']);
+                }
+            }
+        }
+        out.push((format!("twins{}", f), sort_dedup(ks)));
+    }
     // long keys (one-trans-next chains), common and uncommon bytes
     for &l in &[1usize, 2, 50, 300, 1000] {
         out.push((format!("long{}_common", l), vec![vec![b'e'; l]]));
